@@ -83,10 +83,12 @@ def appended_with(pred: Callable[[ast.AST], bool]):
 # ------------------------------------------------------------------------------------------------ registry
 # (module name suffix, function qualname) -> (definition specs, loop specs, finders)
 REGISTRY: dict[tuple[str, str], tuple[list[Spec], list[LoopSpec], list[Finder]]] = {}
+UNPACKS: dict[tuple[str, str], list[LoopSpec]] = {}  # tuple-unpacking assignments: (expected names, predicate on the VALUE)
 
 
-def register(mod: str, qual: str, specs: list[Spec] | None = None, loops: list[LoopSpec] | None = None, finders: list[Finder] | None = None) -> None:
+def register(mod: str, qual: str, specs: list[Spec] | None = None, loops: list[LoopSpec] | None = None, finders: list[Finder] | None = None, unpacks: list[LoopSpec] | None = None) -> None:
     REGISTRY[(mod, qual)] = (specs or [], loops or [], finders or [])
+    UNPACKS[(mod, qual)] = unpacks or []
 
 
 _current = lambda v: u(v) == "self.current()"  # noqa: E731
@@ -95,6 +97,98 @@ register("core.parser", "Parser.parse_value", specs=[("token", _current)])
 register("core.parser", "Parser._consume_bracket_annotation", specs=[("tok", _current)], finders=[("annotation_tokens", joined(""))])
 register("core.parser", "Parser._reconstruct_pattern_from_tokens", finders=[("parts", joined(""))],
          loops=[(("token",), lambda it: isinstance(it, ast.Name) and it.id.startswith("token"))])
+
+
+# ---- core.lexer tokenize: recognised by what the locals ARE, not by what they are called
+def _assigned_from(pred):
+    """the single Name target of the first (source order) plain assignment whose value satisfies pred"""
+    def find(fn: ast.AST) -> "str | None":
+        for n in _walk(fn):
+            if isinstance(n, ast.Assign) and len(n.targets) == 1 and isinstance(n.targets[0], ast.Name):
+                try:
+                    if pred(n.value):
+                        return n.targets[0].id
+                except Exception:  # noqa: BLE001
+                    pass
+        return None
+    return find
+
+
+def _token_arg(i: int):
+    """the name passed as the i-th positional argument of the Token(...) built right after a pattern match (6 arguments)"""
+    def find(fn: ast.AST) -> "str | None":
+        for n in _walk(fn):
+            if isinstance(n, ast.Call) and isinstance(n.func, ast.Name) and n.func.id == "Token" and len(n.args) == 6 and all(isinstance(a, ast.Name) for a in n.args):
+                return n.args[i].id
+        return None
+    return find
+
+
+def _pattern_loop(i: int):
+    """target i of the `for pattern, token_type in <compiled TOKEN_PATTERNS>` loop (the loop whose body calls <t0>.match)"""
+    def find(fn: ast.AST) -> "str | None":
+        for n in _walk(fn):
+            if isinstance(n, ast.For) and isinstance(n.target, ast.Tuple) and len(n.target.elts) == 2 and all(isinstance(e, ast.Name) for e in n.target.elts):
+                t0 = n.target.elts[0].id
+                if any(isinstance(c, ast.Call) and isinstance(c.func, ast.Attribute) and c.func.attr == "match" and isinstance(c.func.value, ast.Name) and c.func.value.id == t0 for b in n.body for c in ast.walk(b)):
+                    return n.target.elts[i].id
+        return None
+    return find
+
+
+def _unpacked_from(callee: str, i: int, width: int):
+    def find(fn: ast.AST) -> "str | None":
+        for n in _walk(fn):
+            if isinstance(n, ast.Assign) and len(n.targets) == 1 and isinstance(n.targets[0], ast.Tuple) and len(n.targets[0].elts) == width and isinstance(n.value, ast.Call) and u(n.value.func).split(".")[-1] == callee and isinstance(n.targets[0].elts[i], ast.Name):
+                return n.targets[0].elts[i].id
+        return None
+    return find
+
+
+def _index_into(coll_finder):
+    """the name used as subscript of the collection found by coll_finder in a test `x < len(<coll>)`"""
+    def find(fn: ast.AST) -> "str | None":
+        coll = coll_finder(fn)
+        if coll is None:
+            return None
+        for n in _walk(fn):
+            if isinstance(n, ast.Compare) and len(n.ops) == 1 and isinstance(n.ops[0], ast.Lt) and isinstance(n.left, ast.Name) and u(n.comparators[0]) == f"len({coll})":
+                return n.left.id
+        return None
+    return find
+
+
+register("core.lexer", "tokenize", finders=[
+    ("pos", while_counter_over_param),
+    ("tokens", returned_tuple_elem(0, 2)),
+    ("repairs", returned_tuple_elem(1, 2)),
+    ("pattern", _pattern_loop(0)),
+    ("token_type", _pattern_loop(1)),
+    ("match", _assigned_from(lambda v: isinstance(v, ast.Call) and isinstance(v.func, ast.Attribute) and v.func.attr == "match" and len(v.args) == 2)),
+    ("matched_text", _assigned_from(lambda v: isinstance(v, ast.Call) and isinstance(v.func, ast.Attribute) and v.func.attr == "group" and not v.args)),
+    ("value", _token_arg(1)),
+    ("line", _token_arg(2)),
+    ("column", _token_arg(3)),
+    ("normalized_from", _token_arg(4)),
+    ("raw_lexeme", _token_arg(5)),
+    ("fence_spans", _unpacked_from("_normalize_with_fence_detection", 1, 2)),
+    ("fence_span_idx", _index_into(_unpacked_from("_normalize_with_fence_detection", 1, 2))),
+])
+
+
+UNPACKS[("core.lexer", "tokenize")] = [
+    (("span_start", "span_end", "marker", "tag"), lambda v, rn: isinstance(v, ast.Subscript) and isinstance(v.value, ast.Name) and rn.get(v.value.id, v.value.id) == "fence_spans"),
+]
+register("core.lexer", "_normalize_with_fence_detection", finders=[("fence_spans", returned_tuple_elem(1, 2)), ("output_parts", joined(""))])
+
+
+def _returned_name(fn: ast.AST) -> "str | None":
+    names = {n.value.id for n in _walk(fn) if isinstance(n, ast.Return) and isinstance(n.value, ast.Name)}
+    return names.pop() if len(names) == 1 else None
+
+
+register("mcp.write", "WriteTool._map_parse_warnings_to_corrections", finders=[("corrections", _returned_name)])
+register("mcp.write", "WriteTool._track_corrections", finders=[("corrections", _returned_name)])
 
 
 # ------------------------------------------------------------------------------------------------ engine
@@ -164,6 +258,20 @@ def canonicalise_module(modname: str, functions: dict) -> dict[str, dict[str, st
         if fi is None:
             continue
         rn = compute_renames(fi.node, specs, loops, finders)
+        # tuple-unpacking assignments (after the renames above are known: predicates see the ORIGINAL names)
+        used = {n.id for n in ast.walk(fi.node) if isinstance(n, ast.Name)}
+        for names, pred in UNPACKS.get((suffix, qual), []):
+            for n in _walk(fi.node):
+                if isinstance(n, ast.Assign) and len(n.targets) == 1 and isinstance(n.targets[0], ast.Tuple) and len(n.targets[0].elts) == len(names) and all(isinstance(e, ast.Name) for e in n.targets[0].elts):
+                    try:
+                        hit = pred(n.value, rn)
+                    except Exception:  # noqa: BLE001
+                        hit = False
+                    if hit:
+                        for e, w in zip(n.targets[0].elts, names):
+                            if e.id != w and e.id != "_" and w not in used and e.id not in rn and w not in rn.values():
+                                rn[e.id] = w
+                        break
         if rn:
             apply_renames(fi.node, rn)
             done[qual] = rn
